@@ -272,12 +272,17 @@ def _pydantic_fields(ck: Check, prog: Program) -> None:
     """COERCE-SWITCH (the model the type validator checks against is the signature): build_validation_schema gives every parameter a
     field (annotation, default): the annotation when there is one, Any otherwise — wrapped as Dict[str, ·] for **kwargs and List[·]
     for *args; the default when there is one, `...` (required) otherwise, None for the variadic kinds; selected by the parameter kind;
-    and returns the table it filled."""
+    and returns the table it filled.  Decided on value flow: every (type, default) pair that can reach the table is read together with
+    the tests on the parameter's kind / annotation / default under which it gets there (through locals and flags)."""
     from ..flow import Flow
+    from ..inline import inlined_program
+    from ..util import canon_deep_text as canon_text
     ci = prog.cls('pjrpc.server.validators.pydantic.PydanticValidator')
-    f = ci.methods.get('build_validation_schema')
-    if f is None:
+    f0 = ci.methods.get('build_validation_schema')
+    if f0 is None:
         raise AnalysisError('PydanticValidator.build_validation_schema not found')
+    prog = inlined_program(prog, [f0.qualname])
+    f = prog.func(f0.qualname)
     ck.functions.add(f.qualname)
     cfg = CFG(f, prog)
     fl = Flow(cfg)
@@ -285,75 +290,128 @@ def _pydantic_fields(ck: Check, prog: Program) -> None:
     if len(heads) != 1 or not isinstance(heads[0].ast.target, ast.Name):
         raise AnalysisError(f'{f.qualname}: parameter loop not recognised')
     pv = heads[0].ast.target.id
+    EMPTY = 'inspect.Parameter.empty'
     problems: List[Tuple[int, str]] = []
     stores = [n for n in cfg.stmt_nodes() if isinstance(n.ast, ast.Assign) and isinstance(n.ast.targets[0], ast.Subscript)
-              and norm(n.ast.targets[0].slice) == f'{pv}.name']
+              and canon_text(f, n.ast.targets[0].slice) == f'{pv}.name']
+    if not stores:
+        raise AnalysisError(f'{f.qualname}: no store keyed by the parameter name')
     table = {dotted(n.ast.targets[0].value) for n in stores}
+
+    def facts_of(guards) -> dict:
+        """{'kind': 'VAR_KEYWORD'|'VAR_POSITIONAL'|'other'|None, 'ann': True|False|None, 'def': True|False|None} from path conditions"""
+        out = {'kind': None, 'ann': None, 'def': None}
+        not_kinds = set()
+        for c_, pol in guards:
+            t = canon_text(f, c_)
+            for k in ('VAR_KEYWORD', 'VAR_POSITIONAL'):
+                if t in (f'{pv}.kind is inspect.Parameter.{k}', f'{pv}.kind == inspect.Parameter.{k}', f'inspect.Parameter.{k} == {pv}.kind'):
+                    if pol:
+                        out['kind'] = k
+                    else:
+                        not_kinds.add(k)
+                elif t in (f'{pv}.kind is not inspect.Parameter.{k}', f'{pv}.kind != inspect.Parameter.{k}'):
+                    if not pol:
+                        out['kind'] = k
+                    else:
+                        not_kinds.add(k)
+            for key, attr in (('ann', 'annotation'), ('def', 'default')):
+                if t == f'{pv}.{attr} is not {EMPTY}':
+                    out[key] = pol
+                elif t == f'{pv}.{attr} is {EMPTY}':
+                    out[key] = not pol
+        if out['kind'] is None and not_kinds == {'VAR_KEYWORD', 'VAR_POSITIONAL'}:
+            out['kind'] = 'other'
+        out['possible'] = {out['kind']} if out['kind'] else ({'VAR_KEYWORD', 'VAR_POSITIONAL', 'other'} - not_kinds)
+        return out
     seen_kinds = set()
     for n in stores:
-        kind = 'other'
-        for g in guard_edges(cfg, n):
-            t = norm(g.src.ast)
-            for k in ('VAR_KEYWORD', 'VAR_POSITIONAL'):
-                if t in (f'{pv}.kind is inspect.Parameter.{k}', f'{pv}.kind == inspect.Parameter.{k}') and g.label == 'T':
-                    kind = k
-                elif t in (f'{pv}.kind is not inspect.Parameter.{k}', f'{pv}.kind != inspect.Parameter.{k}') and g.label == 'F':
-                    kind = k
-        seen_kinds.add(kind)
-        v = n.ast.value
-        vals = [al.expr for al in fl.alts(n, v)]
-        if not (len(vals) == 1 and isinstance(vals[0], ast.Tuple) and len(vals[0].elts) == 2):
-            problems.append((n.line, f'`{norm(v)[:60]}` is not an (annotation, default) pair'))
-            continue
-        ann_e, def_e = vals[0].elts
-
-        def arms(e: ast.expr):
-            """[(expr, {(test text): polarity})]"""
-            out = []
-            for al in fl.alts(n, e):
-                cond = {}
-                for c_, pol in al.guards:
-                    cond[norm(c_)] = pol
-                out.append((al.expr, cond))
-            return out
-        has_ann, has_def = f'{pv}.annotation is not inspect.Parameter.empty', f'{pv}.default is not inspect.Parameter.empty'
-        no_ann, no_def = f'{pv}.annotation is inspect.Parameter.empty', f'{pv}.default is inspect.Parameter.empty'
-
-        def present(cond, yes, no):
-            if yes in cond:
-                return cond[yes]
-            if no in cond:
-                return not cond[no]
-            return None
-        for e, cond in arms(ann_e):
-            pr = present(cond, has_ann, no_ann)
-            uses = any(norm(x) == f'{pv}.annotation' for x in ast.walk(e))
-            if pr is True:
+        base_g = [(g.src.ast, g.label == 'T') for g in guard_edges(cfg, n)]
+        pairs = []
+        for al in fl.alts(n, n.ast.value):
+            v = al.expr
+            if not (isinstance(v, ast.Tuple) and len(v.elts) == 2):
+                raise AnalysisError(f'{f.qualname}: the stored field `{norm(v)[:50]}` cannot be followed to an (annotation, default) pair')
+            t_alts = []
+            for ta in fl.alts(al.node or n, v.elts[0]):
+                te_ = ta.expr
+                # a call through a local that holds one of several helper functions: one alternative per helper, with the helper's
+                # (expression-like) body in place of the call
+                if isinstance(te_, ast.Call) and isinstance(te_.func, ast.Name) and fl.defs_at(ta.node or n, te_.func.id):
+                    expanded = False
+                    for fa in fl.alts(ta.node or n, te_.func):
+                        ent = prog.resolve(f.module, fa.expr) if dotted(fa.expr) else None
+                        if isinstance(ent, FuncInfo) and ent.cls is None:
+                            from ..inline import _Inliner
+                            call2 = ast.copy_location(ast.Call(func=fa.expr, args=te_.args, keywords=te_.keywords), te_)
+                            ex = _Inliner(prog, f, set(), [], False)._as_expression(call2, ent, False)
+                            if ex is not None:
+                                t_alts.append((ex, list(ta.guards) + list(fa.guards)))
+                                expanded = True
+                                continue
+                        t_alts.append((te_, list(ta.guards) + list(fa.guards)))
+                        expanded = True
+                    if expanded:
+                        continue
+                t_alts.append((te_, list(ta.guards)))
+            for te_, tg_ in t_alts:
+                for da in fl.alts(al.node or n, v.elts[1]):
+                    pairs.append((te_, da.expr, base_g + list(al.guards) + tg_ + list(da.guards)))
+        for te, de, gs in pairs:
+            # contradictory combinations (the two elements come from different branches) are not reachable
+            pol = {}
+            if any(pol.setdefault(canon_text(f, c_), p_) != p_ for c_, p_ in gs):
+                continue
+            fx = facts_of(gs)
+            kind = fx['kind']
+            if kind is None:
+                # no test of the kind on this path: fine where what is expected does not depend on the kind
+                if fx['ann'] is False and fx['def'] is True:
+                    if canon_text(f, te) != 'Any' or canon_text(f, de) != f'{pv}.default':
+                        problems.append((n.line, f'an un-annotated parameter with a default gets ({canon_text(f, te)[:30]}, {canon_text(f, de)[:30]}), expected (Any, {pv}.default)'))
+                    continue
+                # several kinds can take this path: the pair must be right for each of them
+                wrong_for = []
+                for k_ in sorted(fx['possible']):
+                    want_t = ({'other': f'{pv}.annotation', 'VAR_KEYWORD': f'Optional[Dict[str, {pv}.annotation]]',
+                               'VAR_POSITIONAL': f'Optional[List[{pv}.annotation]]'}[k_] if fx['ann'] else 'Any') if fx['ann'] is not None else None
+                    want_d = (f'{pv}.default' if fx['def'] else ('...' if k_ == 'other' else 'None')) if fx['def'] is not None else None
+                    if (want_t is not None and canon_text(f, te) != want_t) or (want_d is not None and canon_text(f, de) != want_d):
+                        wrong_for.append(k_)
+                if wrong_for:
+                    problems.append((n.line, f'a parameter of kind {wrong_for} can get the field ({canon_text(f, te)[:40]}, {canon_text(f, de)[:20]}), which is the '
+                                     f'definition of another kind'))
+                    seen_kinds |= fx['possible'] - set(wrong_for)
+                    continue
+                raise AnalysisError(f'{f.qualname}: a field is stored without a decidable test of the parameter kind')
+            seen_kinds.add(kind)
+            tt, dt = canon_text(f, te), canon_text(f, de)
+            uses_ann = f'{pv}.annotation' in tt
+            if fx['ann'] is True:
                 want = {'other': f'{pv}.annotation', 'VAR_KEYWORD': f'Optional[Dict[str, {pv}.annotation]]', 'VAR_POSITIONAL': f'Optional[List[{pv}.annotation]]'}[kind]
-                if norm(e) != want:
-                    problems.append((n.line, f'{kind}: the field type for an annotated parameter is `{norm(e)[:50]}`, expected `{want}`'))
-            elif pr is False:
-                if norm(e) != 'Any' or uses:
-                    problems.append((n.line, f'{kind}: the field type for an un-annotated parameter is `{norm(e)[:50]}`, expected Any'))
+                if tt != want:
+                    problems.append((n.line, f'{kind}: the field type for an annotated parameter is `{tt[:50]}`, expected `{want}`'))
+            elif fx['ann'] is False:
+                if tt != 'Any':
+                    problems.append((n.line, f'{kind}: the field type for an un-annotated parameter is `{tt[:50]}`, expected Any'))
             else:
-                problems.append((n.line, f'{kind}: the field type `{norm(e)[:50]}` is chosen without testing whether the parameter is annotated'))
-        for e, cond in arms(def_e):
-            pr = present(cond, has_def, no_def)
-            if pr is True:
-                if norm(e) != f'{pv}.default':
-                    problems.append((n.line, f'{kind}: the field default for a parameter with a default is `{norm(e)[:40]}`, expected `{pv}.default`'))
-            elif pr is False:
+                problems.append((n.line, f'{kind}: the field type `{tt[:50]}` is chosen without testing whether the parameter is annotated'))
+            if fx['def'] is True:
+                if dt != f'{pv}.default':
+                    problems.append((n.line, f'{kind}: the field default for a parameter with a default is `{dt[:40]}`, expected `{pv}.default`'))
+            elif fx['def'] is False:
                 want_d = '...' if kind == 'other' else 'None'
-                if norm(e) != want_d:
-                    problems.append((n.line, f'{kind}: a parameter without default gets `{norm(e)[:40]}`, expected `{want_d}` '
+                if dt != want_d:
+                    problems.append((n.line, f'{kind}: a parameter without default gets `{dt[:40]}`, expected `{want_d}` '
                                      f'({"required" if kind == "other" else "absent variadic arguments"})'))
             else:
-                problems.append((n.line, f'{kind}: the field default `{norm(e)[:40]}` is chosen without testing whether the parameter has a default'))
+                problems.append((n.line, f'{kind}: the field default `{dt[:40]}` is chosen without testing whether the parameter has a default'))
     if seen_kinds != {'other', 'VAR_KEYWORD', 'VAR_POSITIONAL'}:
         problems.append((f.node.lineno, f'fields are defined for the kinds {sorted(seen_kinds)}; expected one definition each for **kwargs, *args and ordinary parameters'))
     rets = [n for n in cfg.stmt_nodes() if isinstance(n.ast, ast.Return)]
     if not rets or any(n.ast.value is None or dotted(n.ast.value) not in table for n in rets):
         problems.append((f.node.lineno, 'build_validation_schema does not return the table of field definitions it filled'))
+    problems = sorted(set(problems))
     ck.ob('COERCE-SWITCH', 'PydanticValidator.build_validation_schema: one (annotation-or-Any, default-or-required) field per parameter, by kind', not problems)
     for line, msg in problems:
         ck.finding('COERCE-SWITCH', f.qualname, msg[:70], f.module.rel, line,
